@@ -141,6 +141,9 @@ pub struct Child {
     pub argv0: Option<String>,
     /// run this program instead of the fml binary (the wrapper script under bash)
     pub program: Option<String>,
+    /// the process starts in a working directory that has been deleted under it (another process removed it): every path it is
+    /// given is absolute, so nothing it is asked to do depends on the current directory; getcwd() fails with ENOENT
+    pub deleted_cwd: bool,
     /// name of the shim trace file in cwd (several children alive at once in one directory need one each)
     pub trace_name: Option<String>,
 }
@@ -157,6 +160,7 @@ impl Child {
             aslr: false,
             argv0: None,
             program: None,
+            deleted_cwd: false,
             trace_name: None,
         }
     }
@@ -316,11 +320,24 @@ pub fn cleanup_scratch_root() {
 
 fn prepare(cwd: &Path, c: &Child) -> (Command, Option<PathBuf>, PathBuf, PathBuf) {
     let bin = match &c.program { Some(p) => PathBuf::from(p), None => binary(c.profile) };
-    let mut cmd = Command::new(&bin);
-    if let Some(a0) = &c.argv0 {
-        cmd.arg0(a0);
+    let mut cmd;
+    if c.deleted_cwd && c.program.is_none() {
+        // sh makes a directory, enters it, removes it and becomes the tool; arguments naming files of cwd are made absolute
+        cmd = Command::new("/bin/sh");
+        cmd.arg("-c").arg("mkdir .gone.$$ && cd .gone.$$ && rmdir ../.gone.$$ && exec \"$0\" \"$@\"").arg(&bin);
+        let mut prev_takes_path = false;
+        for a in &c.args {
+            let abs = if !a.starts_with('-') && !a.starts_with('/') && (prev_takes_path || cwd.join(a).exists()) { cwd.join(a).to_string_lossy().to_string() } else { a.clone() };
+            prev_takes_path = a == "-o" || a == "--heap-log" || a == "--output-path";
+            cmd.arg(abs);
+        }
+    } else {
+        cmd = Command::new(&bin);
+        if let Some(a0) = &c.argv0 {
+            cmd.arg0(a0);
+        }
+        cmd.args(&c.args);
     }
-    cmd.args(&c.args);
     cmd.current_dir(cwd);
     cmd.env_clear();
     cmd.env("RUST_BACKTRACE", "0");
@@ -333,9 +350,9 @@ fn prepare(cwd: &Path, c: &Child) -> (Command, Option<PathBuf>, PathBuf, PathBuf
     if let Some(s) = &c.shim {
         cmd.env("LD_PRELOAD", shim_path());
         cmd.env("FMLSIM_SEED", s.seed.to_string());
-        cmd.env("FMLSIM_TRACE", &trace_name);
+        if c.deleted_cwd { cmd.env("FMLSIM_TRACE", trace_path.to_string_lossy().to_string()); } else { cmd.env("FMLSIM_TRACE", &trace_name); }
         cmd.env("FMLSIM_CPU", CPU_LIMIT_S.to_string());
-        if c.program.is_some() {
+        if c.program.is_some() || c.deleted_cwd {
             // a wrapper (bash) runs the binary: only the binary is the system under test; the shell sees an undisturbed world
             cmd.env("FMLSIM_ONLY", "/fml");
         }
